@@ -148,7 +148,7 @@ static void run_c14t(long cases) {
         std::vector<std::thread> th;
         std::mutex rm; std::vector<std::pair<std::string, std::string>> results;   // (key or "", witness)
         double minT = std::min(H, B);
-        for (int kind = 0; kind < 8; kind++) {
+        for (int kind = 0; kind < 9; kind++) {
             long myidx = idx++;
             th.emplace_back([&, kind, myidx] {
                 std::string kn; std::string key;
@@ -186,6 +186,9 @@ static void run_c14t(long cases) {
                         break;
                 case 5: kn = "slow-but-within"; lv::msleep((int)(minT * 300)); c.send_all(head); lv::msleep((int)(minT * 200)); c.send_all(body); expect200(kn); break;
                 case 6: { kn = "second-request-after-idle-gap"; c.send_all(head + body); expect200(kn); if (!key.empty()) break; buf.clear(); lv::msleep((int)(minT * 600)); t0 = lv::now(); c.send_all(head + body); expect200(kn); break; }
+                case 8: { kn = "second-request-straddles-the-connections-age";   // starts before the connection is a time-out old, ends after, but is itself quick
+                        c.send_all(head + body); expect200(kn); if (!key.empty()) break; buf.clear();
+                        lv::msleep((int)(minT * 700)); t0 = lv::now(); c.send_all(head); lv::msleep((int)(minT * 600)); c.send_all(body); expect200(kn); break; }
                 default: kn = "body-after-header-timeout-within-body-timeout";
                         if (B > H) { c.send_all(head); lv::msleep((int)((H + 0.3) * 1000)); if (lv::now() - t0 < B - 0.4) { c.send_all(body); expect200(kn); } }
                         else { c.send_all(head + body); expect200(kn); }
@@ -202,7 +205,7 @@ static void run_c14t(long cases) {
             count("timeout_cases");
             if (g_samples_left > 0) { g_samples_left--; sample(kv.second); }
         }
-        for (int kind = 0; kind < 8; kind++) g_distinct.add(std::to_string(H) + "|" + std::to_string(B) + "|" + std::to_string(kind) + "|" + std::to_string(workers));
+        for (int kind = 0; kind < 9; kind++) g_distinct.add(std::to_string(H) + "|" + std::to_string(B) + "|" + std::to_string(kind) + "|" + std::to_string(workers));
         ep.shutdown();
     }
 }
@@ -220,7 +223,10 @@ struct LifeTcpHandler : public Tcp::Handler {
         { std::lock_guard<std::mutex> g(g_m); PeerLife& l = g_life[peer->getID()]; if (l.disc) l.inputAfterDisc = true; if (l.events.size() < 64) l.events += 'I'; }
         std::string in(buffer, len);
         if (in.find("BIG") != std::string::npos) big = true;
-        // echo something back (a large reply when asked, so that a reset can hit a pending write)
+        if (in.find("SLOW") != std::string::npos) lv::msleep(150);   // keeps this worker away from its event loop for a while
+        // answer complete lines only (a large reply when asked, so that a reset can hit a pending write); a partial
+        // command gets no reply, like a partial HTTP request
+        if (in.find('\n') == std::string::npos) return;
         std::string reply = big ? std::string(4 << 20, 'z') : "ok:" + in.substr(0, 16);
         transport()->asyncWrite(peer->fd(), RawBuffer(reply, reply.size()));
     }
@@ -238,17 +244,26 @@ struct LifeHttpHandler : public Http::Handler {
         auto peer = response.peer();
         { std::lock_guard<std::mutex> g(g_m); PeerLife& l = g_life[peer->getID()]; if (l.disc) l.inputAfterDisc = true; if (l.events.size() < 64) l.events += 'R'; }
         if (req.resource() == "/armed") response.timeoutAfter(std::chrono::milliseconds(300));
+        if (req.resource() == "/slow") lv::msleep(150);
         if (req.resource() == "/big") { response.send(Http::Code::Ok, std::string(4 << 20, 'z')); return; }
         response.send(Http::Code::Ok, "ok");
     }
     void onDisconnection(const std::shared_ptr<Tcp::Peer>& peer) override { std::lock_guard<std::mutex> g(g_m); PeerLife& l = g_life[peer->getID()]; l.disc++; l.events += 'D'; }
 };
-static const char* BEHAVIOUR[] = {"connect-close", "partial-then-close", "exchange-then-close", "half-close-then-read", "reset", "reset-with-pending-response", "silence-until-idle-timeout", "armed-timeout-answered-before", "keepalive-3-requests-then-close", "exchange-then-silence-until-idle-timeout"};
+static const char* BEHAVIOUR[] = {"connect-close", "partial-then-close", "exchange-then-close", "half-close-then-read", "reset", "reset-with-pending-response", "silence-until-idle-timeout", "armed-timeout-answered-before", "keepalive-3-requests-then-close", "exchange-then-silence-until-idle-timeout", "slow-request-keeps-worker-busy", "partial-then-immediate-close-while-worker-busy", "send-and-half-close-at-once-while-worker-busy"};
+static std::atomic<int> g_foreign_bytes{0};
+static std::string g_foreign_detail;
 static void client_behaviour(int port, int b, bool http, Rng& r) {
     lv::Conn c; if (!c.open_to(port, b == 5 ? 2048 : 0)) return;
     std::string buf;
     auto req = [&](const std::string& path) { return http ? "GET " + path + " HTTP/1.1\r\nHost: x\r\nConnection: keep-alive\r\n\r\n" : "hello " + path + "\n"; };
-    auto readReply = [&]() { if (http) { lv::read_response(c, buf, 0, 3000); buf.clear(); } else { std::string t; c.read_some(t, 1000); } };
+    // the reply must be this connection's own: state left behind by an earlier connection (e.g. its unsent response) must not surface here
+    auto readReply = [&]() {
+        std::string got;
+        if (http) { lv::HttpMsg m = lv::read_response(c, buf, 0, (int)(3000 * lv::load_factor())); got = m.complete ? std::to_string(m.status) + ":" + m.body.substr(0, 16) : "incomplete:" + m.error + ":" + buf.substr(0, 24); buf.clear(); if (got == "200:ok") return; }
+        else { double end = lv::now() + 3.0 * lv::load_factor(); while (got.size() < 9 && lv::now() < end) c.read_some(got, 100); if (got.rfind("ok:hello /", 0) == 0) return; }
+        if (g_foreign_bytes++ == 0) { std::lock_guard<std::mutex> g(g_m); g_foreign_detail = got.substr(0, 60); }
+    };
     switch (b) {
     case 0: break;
     case 1: c.send_all(http ? "GET /par" : "hel"); lv::msleep(r.range(0, 20)); break;
@@ -258,6 +273,9 @@ static void client_behaviour(int port, int b, bool http, Rng& r) {
     case 5: c.send_all(http ? req("/big") : "BIG\n"); lv::msleep(r.range(5, 50)); c.rst_close(); return;
     case 6: { bool eof = false; double end = lv::now() + 4.0; std::string t; while (!eof && lv::now() < end) c.read_some(t, 100, 1 << 20, &eof); } break;
     case 7: c.send_all(req("/armed")); readReply(); break;
+    case 10: c.send_all(http ? req("/slow") : "SLOW /x\n"); { std::string t; if (http) { lv::read_response(c, buf, 0, 3000); } else c.read_some(t, 1500); } break;
+    case 11: lv::msleep(r.range(20, 90)); c.send_all(http ? "POST /x HTTP/1.1\r\nHost: x\r\nContent-Length: 50\r\n\r\nabc" : "hel"); break;   // bytes and FIN reach the busy worker together
+    case 12: lv::msleep(r.range(20, 90)); c.send_all(http ? "GET /par" : "hel"); c.half_close(); lv::msleep(300); break;
     case 9: c.send_all(req("/x")); readReply(); { bool eof = false; double end = lv::now() + 4.0; std::string t; while (!eof && lv::now() < end) c.read_some(t, 100, 1 << 20, &eof); } break;
     default: for (int k = 0; k < 3; k++) { c.send_all(req("/k" + std::to_string(k))); readReply(); } break;
     }
@@ -269,12 +287,13 @@ static void run_c08(long cases) {
     for (long round = 0; round < cases; round++) {
         long idx = g_opts.shard * 100000L + round;
         bool http = round % 2 == 1;
+        bool longTimeouts = http && (round % 4 == 3);   // with the idle time-out out of the way a connection the server forgot about stays forgotten
         int workers = r.chance(1, 2) ? 1 : 3;
         { std::lock_guard<std::mutex> g(g_m); g_life.clear(); SpyTransport::all().clear(); }
         std::unique_ptr<Tcp::Listener> listener; std::unique_ptr<Http::Endpoint> ep; int port;
         if (http) {
             ep.reset(new Http::Endpoint(Address(Ipv4::loopback(), Port(0))));
-            ep->init(Http::Endpoint::options().threads(workers).flags(Tcp::Options::ReuseAddr).headerTimeout(std::chrono::seconds(1)).bodyTimeout(std::chrono::seconds(1)).maxResponseSize(16u << 20));
+            ep->init(Http::Endpoint::options().threads(workers).flags(Tcp::Options::ReuseAddr).headerTimeout(std::chrono::seconds(longTimeouts ? 60 : 1)).bodyTimeout(std::chrono::seconds(longTimeouts ? 60 : 1)).maxResponseSize(16u << 20));
             ep->setHandler(Http::make_handler<LifeHttpHandler>());
             ep->serveThreaded(); port = ep->getPort();
         } else {
@@ -295,9 +314,11 @@ static void run_c08(long cases) {
         std::vector<int> behaviours;
         std::vector<std::thread> th;
         for (int k = 0; k < nclients; k++) {
-            int b = r.range(0, 9);
+            int b = r.range(0, 12);
+            if (k == 0 && r.chance(1, 2)) b = 10;
             if (g_opts.num("behaviour", -1) >= 0) b = (int)g_opts.num("behaviour", -1);
-            if (!http && (b == 6 || b == 7 || b == 9)) b = r.range(0, 5);   // idle time-out / response timers exist on the HTTP endpoint only
+            if (!http && (b == 6 || b == 7 || b == 9)) b = r.range(0, 5);
+            if (longTimeouts && (b == 6 || b == 9)) b = r.range(10, 12);   // idle time-out / response timers exist on the HTTP endpoint only
             behaviours.push_back(b);
             uint64_t cs = r.next();
             th.emplace_back([=] { Rng cr(cs); client_behaviour(port, b, http, cr); });
@@ -314,7 +335,8 @@ static void run_c08(long cases) {
         std::string key;
         long accepts, closes; size_t stillOwned; { lv::Interpose& I = lv::ip(); std::lock_guard<std::mutex> g(I.m); accepts = I.accepts - accepts0; closes = I.closesOwned - closes0; stillOwned = I.owned.size(); }
         std::string srv = http ? "http" : "tcp";
-        if (!quiet) key = "c08:socket-not-released:" + srv;
+        if (g_foreign_bytes.load() > 0) { key = "c08:reply-is-not-the-connections-own:" + srv; std::lock_guard<std::mutex> g(g_m); wt = Json().num("i", idx).str("phase", "c08").str("server", srv).str("behaviours", bt).str("received", g_foreign_detail).done(); g_foreign_bytes = 0; }
+        else if (!quiet) key = "c08:socket-not-released:" + srv;
         else if (!fdsBack) { key = "c08:descriptors-above-baseline:" + srv; wt = Json().num("i", idx).str("phase", "c08").str("server", srv).str("behaviours", bt).num("baseline", baselineFds).num("now", lv::fd_count()).str("open", lv::fd_listing().substr(0, 1500)).done(); }
         {
             std::lock_guard<std::mutex> g(g_m);
@@ -331,7 +353,11 @@ static void run_c08(long cases) {
             if (key.empty() && (long)g_life.size() > accepts) key = "c08:more-peers-than-accepts:" + srv;
         }
         (void)closes; (void)stillOwned;
-        // a new connection must still be served
+        // new connections must still be served, each with its own reply (descriptor numbers are reused now: per-connection
+        // state that was not released would surface here)
+        for (int pr = 0; pr < 3 && key.empty(); pr++) { lv::Conn c; std::string buf; if (!c.open_to(port)) continue; c.send_all(http ? "GET /x HTTP/1.1\r\nHost: x\r\n\r\n" : "hello /again\n");
+            std::string got; if (http) { auto m = lv::read_response(c, buf, 0, (int)(3000 * lf)); got = m.complete ? std::to_string(m.status) + ":" + m.body.substr(0, 16) : "incomplete:" + buf.substr(0, 24); if (got != "200:ok") { key = "c08:reply-is-not-the-connections-own:" + srv; wt = Json().num("i", idx).str("phase", "c08").str("server", srv).str("behaviours", bt).str("received", got).done(); } }
+            else { double end = lv::now() + 3 * lf; while (got.size() < 9 && lv::now() < end) c.read_some(got, 100); if (got.rfind("ok:hello /", 0) != 0) { key = "c08:reply-is-not-the-connections-own:" + srv; wt = Json().num("i", idx).str("phase", "c08").str("server", srv).str("behaviours", bt).str("received", got.substr(0, 40)).done(); } } }
         if (key.empty()) { lv::Conn c; std::string buf; if (!c.open_to(port)) key = "c08:cannot-connect-afterwards:" + srv; else { c.send_all(http ? "GET /after HTTP/1.1\r\nHost: x\r\n\r\n" : "after\n"); if (http) { auto m = lv::read_response(c, buf, 0, (int)(3000 * lf)); if (!m.complete || m.status != 200) key = "c08:not-served-afterwards:http"; } else { std::string t; double end = lv::now() + 3 * lf; while (t.empty() && lv::now() < end) c.read_some(t, 100); if (t.empty()) key = "c08:not-served-afterwards:tcp"; } } }
         if (!key.empty()) violation(key, key.substr(4) + " after clients [" + bt + "]", wt);
         std::set<int> bs(behaviours.begin(), behaviours.end()); std::string bsig; for (int b : bs) bsig += std::to_string(b);
